@@ -400,21 +400,31 @@ Fixpoint free_in_ranges (s : ipam) (rs : list range) : list N :=
   | [] => []
   | r :: rest => List.filter (fun ip => range_contains r ip) (elements (i_unalloc s)) ++ free_in_ranges s rest
   end.
-Fixpoint subnets_by_ranges_from (s : ipam) (rss : list (list range)) (acc : list subnet) : list subnet :=
+(** the intersection, over the requested range lists, of the node subnets that still have a free IP in the list.
+    [restart] = the pinned commit's behaviour (F14): an intersection that became empty was restarted from the next
+    range list's subnets (`if subnetSet.Len() == 0`); repaired: only the first list initialises the set. *)
+Fixpoint subnets_by_ranges_gen (restart : bool) (s : ipam) (rss : list (list range)) (first : bool) (acc : list subnet)
+  : list subnet :=
   match rss with
   | [] => acc
   | rs :: rest =>
       match free_in_ranges s rs with
       | [] => []
       | ips => let part := subnets_of_ips s ips in
-               subnets_by_ranges_from s rest (match acc with [] => part | _ => List.filter (sn_in part) acc end)
+               subnets_by_ranges_gen restart s rest false
+                 (if (first || (restart && match acc with [] => true | _ => false end))%bool then part
+                  else List.filter (sn_in part) acc)
       end
   end.
-Definition node_subnets_by_ranges (s : ipam) (rss : list (list range)) : list subnet :=
+Definition subnets_by_ranges_from (s : ipam) (rss : list (list range)) (first : bool) (acc : list subnet) : list subnet :=
+  subnets_by_ranges_gen false s rss first acc.
+Definition node_subnets_by_ranges_gen (restart : bool) (s : ipam) (rss : list (list range)) : list subnet :=
   match rss with
   | [] => subnets_of_ips s (elements (i_unalloc s))
-  | _ => subnets_by_ranges_from s rss []
+  | _ => subnets_by_ranges_gen restart s rss true []
   end.
+Definition node_subnets_by_ranges (s : ipam) (rss : list (list range)) : list subnet :=
+  node_subnets_by_ranges_gen false s rss.
 
 Definition ipam0 : ipam := {| i_store := ∅; i_alloc := ∅; i_unalloc := ∅; i_pools := []; i_clock := 1; i_pending := ∅ |}.
 
